@@ -4,6 +4,7 @@ import (
 	"fmt"
 	"hash/fnv"
 	"reflect"
+	"sort"
 	"strings"
 
 	"github.com/enbility/spine-go/api"
@@ -40,6 +41,8 @@ func init() {
 		Rule: "case = (list function, block): a block of histories on one World; every history starts from no data, an empty list or a generated list and applies 4-6 updates of shapes drawn from " +
 			"{full, partial with identifiers, identifier-less item, partial+selector, delete+selector, delete+elements, delete+selector+elements, delete combined with partial} over an identifier domain of 4 " +
 			"(multi-key types: no single key field is unique), delivered through FeatureRemote.UpdateData, real reply/notify datagrams (a fifth of the histories) or FeatureLocal.UpdateData/SetData; two identically numbered peers, each history addresses one store. " +
+			"The data features are Generic ones in even rounds and of the function's own feature type in odd rounds; every store also holds a sentinel list or value in a SECOND function, which no update may move; a delete filter with elements names one to three fields; " +
+			"the identifier fields of every list function, the set of list functions and the set of selector types that do not cover the identifier are compared with tables pinned in the check. " +
 			"After every update the stored list is compared with the reference fold, checked for unique identifiers and numeric order, the same function's data of the other stores must not have moved, and the update is applied again (idempotence). " +
 			"A case is non-trivial if at least 100 comparisons were made, every delivery path was used and at least three different shapes (two for the list type without key fields) changed the data; distinct = distinct (function, sequence of (path, shape) of the block).",
 		Assumptions: []string{
@@ -48,6 +51,7 @@ func init() {
 			"for the list type without key fields only 'replace' and 'clear the named fields' are judged; selector shapes are skipped for selector types that do not cover all key fields of the item",
 			"for items whose second key is not numeric the order among equal numeric keys is not fixed: multiset equality plus non-decreasing numeric identifiers is demanded",
 			"the items of a datagram are taken as the receiver decodes them (JSON fidelity is C18's subject)",
+			"a non-persisting update (FeatureRemote.UpdateData with persist=false: the update that follows, or a different one) returns the fold and leaves the store as it was",
 		},
 		Parts: []rig.Part{{
 			Name: "fold",
@@ -61,6 +65,412 @@ func init() {
 			Procs: 2,
 		}},
 	})
+}
+
+// c02PinnedKeys: the IDENTITY of every list function, i.e. the Go names of the item fields that make up the
+// identifier, generated once from the unchanged tree. The reference fold reads the identifier fields from the
+// same eebus:"key" tags the library reads, so a tag that silently disappears (or appears) would change the fold
+// and the library alike; the table makes the difference visible. Likewise pinned: the set of list functions, the
+// one list type without identifier, and the list types whose selector type does not cover the identifier with
+// fields of the same name and type (for these the selector shapes are not generated).
+var c02PinnedKeys = map[model.FunctionType][]string{
+	"alarmListData":           {"AlarmId"},
+	"billConstraintsListData": {"BillId"},
+	"billDescriptionListData": {"BillId"},
+	"billListData":            {"BillId"},
+	"deviceConfigurationKeyValueConstraintsListData":   {"KeyId"},
+	"deviceConfigurationKeyValueDescriptionListData":   {"KeyId"},
+	"deviceConfigurationKeyValueListData":              {"KeyId"},
+	"electricalConnectionCharacteristicListData":       {"ElectricalConnectionId", "ParameterId", "CharacteristicId"},
+	"electricalConnectionDescriptionListData":          {"ElectricalConnectionId"},
+	"electricalConnectionParameterDescriptionListData": {"ElectricalConnectionId", "ParameterId"},
+	"electricalConnectionPermittedValueSetListData":    {"ElectricalConnectionId", "ParameterId"},
+	"electricalConnectionStateListData":                {"ElectricalConnectionId"},
+	"hvacOperationModeDescriptionListData":             {"OperationModeId"},
+	"hvacOverrunDescriptionListData":                   {"OverrunId"},
+	"hvacOverrunListData":                              {"OverrunId"},
+	"hvacSystemFunctionDescriptionListData":            {"SystemFunctionId"},
+	"hvacSystemFunctionListData":                       {"SystemFunctionId"},
+	"hvacSystemFunctionOperationModeRelationListData":  {"SystemFunctionId"},
+	"hvacSystemFunctionPowerSequenceRelationListData":  {"SystemFunctionId"},
+	"hvacSystemFunctionSetpointRelationListData":       {"SystemFunctionId"},
+	"identificationListData":                           {"IdentificationId"},
+	"incentiveDescriptionListData":                     {"IncentiveId"},
+	"incentiveListData":                                {"IncentiveId"},
+	"loadControlEventListData":                         {"EventId"},
+	"loadControlLimitConstraintsListData":              {"LimitId"},
+	"loadControlLimitDescriptionListData":              {"LimitId"},
+	"loadControlLimitListData":                         {"LimitId"},
+	"loadControlStateListData":                         {"EventId"},
+	"measurementConstraintsListData":                   {"MeasurementId"},
+	"measurementDescriptionListData":                   {"MeasurementId"},
+	"measurementListData":                              {"MeasurementId", "ValueType"},
+	"measurementSeriesListData":                        {"MeasurementId", "ValueType"},
+	"measurementThresholdRelationListData":             {"MeasurementId"},
+	"messagingListData":                                {"MessagingNumber"},
+	"networkManagementDeviceDescriptionListData":       {"DeviceAddress"},
+	"networkManagementEntityDescriptionListData":       {"EntityAddress"},
+	"networkManagementFeatureDescriptionListData":      {"FeatureAddress"},
+	"nodeManagementDestinationListData":                {},
+	"operatingConstraintsDurationListData":             {"SequenceId"},
+	"operatingConstraintsInterruptListData":            {"SequenceId"},
+	"operatingConstraintsPowerDescriptionListData":     {"SequenceId"},
+	"operatingConstraintsPowerLevelListData":           {"SequenceId"},
+	"operatingConstraintsPowerRangeListData":           {"SequenceId"},
+	"operatingConstraintsResumeImplicationListData":    {"SequenceId"},
+	"powerSequenceAlternativesRelationListData":        {"AlternativesId"},
+	"powerSequenceDescriptionListData":                 {"SequenceId"},
+	"powerSequencePriceListData":                       {"SequenceId"},
+	"powerSequenceScheduleConstraintsListData":         {"SequenceId"},
+	"powerSequenceScheduleListData":                    {"SequenceId"},
+	"powerSequenceSchedulePreferenceListData":          {"SequenceId"},
+	"powerSequenceStateListData":                       {"SequenceId"},
+	"powerTimeSlotScheduleConstraintsListData":         {"SequenceId"},
+	"powerTimeSlotScheduleListData":                    {"SequenceId"},
+	"powerTimeSlotValueListData":                       {"SequenceId"},
+	"sessionIdentificationListData":                    {"SessionId"},
+	"sessionMeasurementRelationListData":               {"SessionId"},
+	"setpointDescriptionListData":                      {"SetpointId", "MeasurementId", "TimeTableId"},
+	"setpointListData":                                 {"SetpointId"},
+	"stateInformationListData":                         {"StateInformationId"},
+	"supplyConditionDescriptionListData":               {"ConditionId"},
+	"supplyConditionListData":                          {"ConditionId"},
+	"supplyConditionThresholdRelationListData":         {"ConditionId"},
+	"tariffBoundaryRelationListData":                   {"TariffId"},
+	"tariffDescriptionListData":                        {"TariffId"},
+	"tariffListData":                                   {"TariffId"},
+	"tariffTierRelationListData":                       {"TariffId"},
+	"taskManagementJobDescriptionListData":             {"JobId"},
+	"taskManagementJobListData":                        {"JobId"},
+	"taskManagementJobRelationListData":                {"JobId"},
+	"thresholdConstraintsListData":                     {"ThresholdId"},
+	"thresholdDescriptionListData":                     {"ThresholdId"},
+	"thresholdListData":                                {"ThresholdId"},
+	"tierBoundaryDescriptionListData":                  {"BoundaryId"},
+	"tierBoundaryListData":                             {"BoundaryId"},
+	"tierDescriptionListData":                          {"TierId"},
+	"tierIncentiveRelationListData":                    {"TierId"},
+	"tierListData":                                     {"TierId"},
+	"timeSeriesConstraintsListData":                    {"TimeSeriesId"},
+	"timeSeriesDescriptionListData":                    {"TimeSeriesId"},
+	"timeSeriesListData":                               {"TimeSeriesId"},
+	"timeTableConstraintsListData":                     {"TimeTableId"},
+	"timeTableDescriptionListData":                     {"TimeTableId"},
+	"timeTableListData":                                {"TimeTableId"},
+}
+
+// c02PinnedFeatureType: the specific feature type whose function table registers the list function (unchanged tree).
+// Looked up from the library it would silently fall back to Generic when a type's table loses the function.
+var c02PinnedFeatureType = map[model.FunctionType]model.FeatureTypeType{
+	"alarmListData":           "Alarm",
+	"billConstraintsListData": "Bill",
+	"billDescriptionListData": "Bill",
+	"billListData":            "Bill",
+	"deviceConfigurationKeyValueConstraintsListData":   "DeviceConfiguration",
+	"deviceConfigurationKeyValueDescriptionListData":   "DeviceConfiguration",
+	"deviceConfigurationKeyValueListData":              "DeviceConfiguration",
+	"electricalConnectionCharacteristicListData":       "ElectricalConnection",
+	"electricalConnectionDescriptionListData":          "ElectricalConnection",
+	"electricalConnectionParameterDescriptionListData": "ElectricalConnection",
+	"electricalConnectionPermittedValueSetListData":    "ElectricalConnection",
+	"electricalConnectionStateListData":                "ElectricalConnection",
+	"hvacOperationModeDescriptionListData":             "HVAC",
+	"hvacOverrunDescriptionListData":                   "HVAC",
+	"hvacOverrunListData":                              "HVAC",
+	"hvacSystemFunctionDescriptionListData":            "HVAC",
+	"hvacSystemFunctionListData":                       "HVAC",
+	"hvacSystemFunctionOperationModeRelationListData":  "HVAC",
+	"hvacSystemFunctionPowerSequenceRelationListData":  "HVAC",
+	"hvacSystemFunctionSetpointRelationListData":       "HVAC",
+	"identificationListData":                           "Identification",
+	"incentiveDescriptionListData":                     "TariffInformation",
+	"incentiveListData":                                "TariffInformation",
+	"loadControlEventListData":                         "LoadControl",
+	"loadControlLimitConstraintsListData":              "LoadControl",
+	"loadControlLimitDescriptionListData":              "LoadControl",
+	"loadControlLimitListData":                         "LoadControl",
+	"loadControlStateListData":                         "LoadControl",
+	"measurementConstraintsListData":                   "Measurement",
+	"measurementDescriptionListData":                   "Measurement",
+	"measurementListData":                              "Measurement",
+	"measurementSeriesListData":                        "Measurement",
+	"measurementThresholdRelationListData":             "Measurement",
+	"messagingListData":                                "Messaging",
+	"networkManagementDeviceDescriptionListData":       "NetworkManagement",
+	"networkManagementEntityDescriptionListData":       "NetworkManagement",
+	"networkManagementFeatureDescriptionListData":      "NetworkManagement",
+	"nodeManagementDestinationListData":                "NodeManagement",
+	"operatingConstraintsDurationListData":             "OperatingConstraints",
+	"operatingConstraintsInterruptListData":            "OperatingConstraints",
+	"operatingConstraintsPowerDescriptionListData":     "OperatingConstraints",
+	"operatingConstraintsPowerLevelListData":           "OperatingConstraints",
+	"operatingConstraintsPowerRangeListData":           "OperatingConstraints",
+	"operatingConstraintsResumeImplicationListData":    "OperatingConstraints",
+	"powerSequenceAlternativesRelationListData":        "PowerSequences",
+	"powerSequenceDescriptionListData":                 "PowerSequences",
+	"powerSequencePriceListData":                       "PowerSequences",
+	"powerSequenceScheduleConstraintsListData":         "PowerSequences",
+	"powerSequenceScheduleListData":                    "PowerSequences",
+	"powerSequenceSchedulePreferenceListData":          "PowerSequences",
+	"powerSequenceStateListData":                       "PowerSequences",
+	"powerTimeSlotScheduleConstraintsListData":         "PowerSequences",
+	"powerTimeSlotScheduleListData":                    "PowerSequences",
+	"powerTimeSlotValueListData":                       "PowerSequences",
+	"sessionIdentificationListData":                    "Identification",
+	"sessionMeasurementRelationListData":               "Identification",
+	"setpointDescriptionListData":                      "Setpoint",
+	"setpointListData":                                 "Setpoint",
+	"stateInformationListData":                         "StateInformation",
+	"supplyConditionDescriptionListData":               "SupplyCondition",
+	"supplyConditionListData":                          "SupplyCondition",
+	"supplyConditionThresholdRelationListData":         "SupplyCondition",
+	"tariffBoundaryRelationListData":                   "TariffInformation",
+	"tariffDescriptionListData":                        "TariffInformation",
+	"tariffListData":                                   "TariffInformation",
+	"tariffTierRelationListData":                       "TariffInformation",
+	"taskManagementJobDescriptionListData":             "TaskManagement",
+	"taskManagementJobListData":                        "TaskManagement",
+	"taskManagementJobRelationListData":                "TaskManagement",
+	"thresholdConstraintsListData":                     "Threshold",
+	"thresholdDescriptionListData":                     "Threshold",
+	"thresholdListData":                                "Threshold",
+	"tierBoundaryDescriptionListData":                  "TariffInformation",
+	"tierBoundaryListData":                             "TariffInformation",
+	"tierDescriptionListData":                          "TariffInformation",
+	"tierIncentiveRelationListData":                    "TariffInformation",
+	"tierListData":                                     "TariffInformation",
+	"timeSeriesConstraintsListData":                    "TimeSeries",
+	"timeSeriesDescriptionListData":                    "TimeSeries",
+	"timeSeriesListData":                               "TimeSeries",
+	"timeTableConstraintsListData":                     "TimeTable",
+	"timeTableDescriptionListData":                     "TimeTable",
+	"timeTableListData":                                "TimeTable",
+}
+
+var c02PinnedKeyless = []model.FunctionType{"nodeManagementDestinationListData"}
+
+var c02PinnedNonCoveringSelectors = []model.FunctionType{"hvacSystemFunctionListData", "hvacSystemFunctionOperationModeRelationListData",
+	"nodeManagementDestinationListData", "powerSequenceDescriptionListData", "setpointDescriptionListData"}
+
+func c02KeyNames(li *rig.ListInfo) []string {
+	ks := []string{}
+	for _, k := range li.Keys {
+		ks = append(ks, li.ElemT.Field(k).Name)
+	}
+	return ks
+}
+
+// c02CheckPinned compares what the library's tags yield with the pinned tables (all functions: once per round).
+func c02CheckPinned(c *rig.Ctx, li *rig.ListInfo, all bool) {
+	cmp := func(li *rig.ListInfo) {
+		want, ok := c02PinnedKeys[li.Fn]
+		if !ok {
+			c.Violate("identity/list-functions-differ-from-pinned", "%s supports partial updates but is not in the pinned table of list functions", li.Fn)
+			return
+		}
+		if got := c02KeyNames(li); strings.Join(got, ",") != strings.Join(want, ",") {
+			c.Violate("identity/key-fields-differ-from-pinned", "%s: the item type %s has identifier fields %v (eebus:\"key\" tags), pinned: %v", li.Fn, li.ElemT.Name(), got, want)
+		}
+	}
+	if !all {
+		cmp(li)
+		return
+	}
+	lists := rig.DiscoverLists()
+	seen := map[model.FunctionType]bool{}
+	var keyless, noncov []string
+	for i := range lists {
+		l := &lists[i]
+		cmp(l)
+		seen[l.Fn] = true
+		if len(l.Keys) == 0 {
+			keyless = append(keyless, string(l.Fn))
+		}
+		if !l.SelCoversKeys {
+			noncov = append(noncov, string(l.Fn))
+		}
+		if l.SelT == nil || (l.ElT == nil && l.Fn != "setpointDescriptionListData") {
+			c.Violate("identity/selector-coverage-differs-from-pinned", "%s: selector type %v, elements type %v in model.FilterType", l.Fn, l.SelT, l.ElT)
+		}
+	}
+	for fn := range c02PinnedKeys {
+		if !seen[fn] {
+			c.Violate("identity/list-functions-differ-from-pinned", "%s is pinned as a list function supporting partial updates; the function table does not yield it", fn)
+		}
+	}
+	if len(lists) != len(c02PinnedKeys) {
+		c.Violate("identity/list-functions-differ-from-pinned", "%d list functions, pinned %d", len(lists), len(c02PinnedKeys))
+	}
+	str := func(fs []model.FunctionType) string {
+		var ss []string
+		for _, f := range fs {
+			ss = append(ss, string(f))
+		}
+		sort.Strings(ss)
+		return strings.Join(ss, ",")
+	}
+	sort.Strings(keyless)
+	sort.Strings(noncov)
+	if strings.Join(keyless, ",") != str(c02PinnedKeyless) {
+		c.Violate("identity/key-fields-differ-from-pinned", "list types without identifier: %v, pinned: %v", keyless, c02PinnedKeyless)
+	}
+	if strings.Join(noncov, ",") != str(c02PinnedNonCoveringSelectors) {
+		c.Violate("identity/selector-coverage-differs-from-pinned", "list types whose selector type does not cover the identifier (same field names and types): %v, pinned: %v", noncov, c02PinnedNonCoveringSelectors)
+	}
+}
+
+// c02Sentinel: a SECOND function holding data on every store of the World. An update of the function under test
+// must not move it (on the addressed store or anywhere else).
+type c02Sentinel struct {
+	fn rig.FnInfo
+	ok bool
+}
+
+func c02SetupSentinel(c *rig.Ctx, lw *listWorld) c02Sentinel {
+	ft := lw.T
+	if lw.li.FeatureType == model.FeatureTypeTypeNodeManagement {
+		ft = model.FeatureTypeTypeNodeManagement
+	}
+	var cand []rig.FnInfo
+	for _, f := range rig.FunctionsOf(ft) {
+		if f.Fn != lw.li.Fn && f.Fn != model.FunctionTypeNodeManagementDetailedDiscoveryData {
+			cand = append(cand, f)
+		}
+	}
+	if len(cand) == 0 {
+		c.Count("worlds-without-sentinel(feature type has one function)", 1)
+		return c02Sentinel{}
+	}
+	s := c02Sentinel{fn: cand[c.Rand.Intn(len(cand))], ok: true}
+	gen := func() any {
+		for i := 0; ; i++ {
+			v := rig.GenVal(c.Rand, reflect.PtrTo(s.fn.T), 0).Interface()
+			if rig.CanonAny(v) != rig.CanonAny(reflect.New(s.fn.T).Interface()) || i > 20 {
+				return v
+			}
+		}
+	}
+	if ft != model.FeatureTypeTypeNodeManagement {
+		lw.local.AddFunctionType(s.fn.Fn, true, true)
+	}
+	lw.local.SetData(s.fn.Fn, gen())
+	for _, rf := range []api.FeatureRemoteInterface{lw.remote, lw.remote2} {
+		if rf != nil {
+			if _, err := rf.UpdateData(true, s.fn.Fn, gen(), nil, nil); err != nil {
+				c.Violate("harness-world", "sentinel %s on %s: %s", s.fn.Fn, rf.Address(), err.String())
+				return c02Sentinel{}
+			}
+		}
+	}
+	lw.p.Tap.Take()
+	if lw.p2 != nil {
+		lw.p2.Tap.Take()
+	}
+	c.Count("worlds-with-sentinel", 1)
+	return s
+}
+
+func (s c02Sentinel) print(lw *listWorld) string {
+	if !s.ok {
+		return ""
+	}
+	parts := []string{"local " + string(s.fn.Fn) + ": " + rig.CanonAny(lw.local.DataCopy(s.fn.Fn))}
+	for _, rf := range []api.FeatureRemoteInterface{lw.remote, lw.remote2} {
+		if rf != nil {
+			parts = append(parts, string(*rf.Address().Device)+" "+string(s.fn.Fn)+": "+rig.CanonAny(rf.DataCopy(s.fn.Fn)))
+		}
+	}
+	return strings.Join(parts, "\n")
+}
+
+// c02NonCoveringProbe: the list types whose selector type does not cover the identifier with fields of the same name
+// AND type (the generic generator builds no selector for them) still have a selector naming the identifier: a
+// list-valued field of the same name (hvacSystemFunction*, powerSequenceDescription) or fields of the same name
+// whose Go type differs from the item's (setpointDescription). "A delete filter removes the matching items": a
+// delete whose selector names the complete identifier of ONE stored item removes exactly that item.
+func c02NonCoveringProbe(c *rig.Ctx, lw *listWorld) {
+	li := lw.li
+	if li.SelCoversKeys || len(li.Keys) == 0 || li.SelT == nil {
+		return
+	}
+	r := c.Rand
+	var items []reflect.Value
+	for id := 0; id < c02Dom; id++ {
+		items = append(items, li.NewItem(r, id))
+	}
+	x := r.Intn(c02Dom)
+	sel := reflect.New(li.SelT)
+	form := "selector-field-type-differs-from-item"
+	for _, k := range li.Keys {
+		sf := sel.Elem().FieldByName(li.ElemT.Field(k).Name)
+		kv := items[x].Field(k).Elem()
+		switch {
+		case sf.IsValid() && sf.Kind() == reflect.Slice && kv.Type().ConvertibleTo(sf.Type().Elem()):
+			form = "list-valued-selector"
+			sl := reflect.MakeSlice(sf.Type(), 1, 1)
+			sl.Index(0).Set(kv.Convert(sf.Type().Elem()))
+			sf.Set(sl)
+		case sf.IsValid() && sf.Kind() == reflect.Ptr && kv.Type().ConvertibleTo(sf.Type().Elem()):
+			pv := reflect.New(sf.Type().Elem())
+			pv.Elem().Set(kv.Convert(sf.Type().Elem()))
+			sf.Set(pv)
+		default:
+			c.Count("not-judged:selector-type-cannot-name-the-identifier", 1)
+			return
+		}
+	}
+	if _, err := lw.remote.UpdateData(true, li.Fn, li.MkList(rig.CloneItems(items)), nil, nil); err != nil {
+		c.Violate("reset/error", "%s: %s", li.Fn, err.String())
+		return
+	}
+	fd := &model.FilterType{CmdControl: &model.CmdControlType{Delete: &model.ElementTagType{}}}
+	reflect.ValueOf(fd).Elem().Field(li.SelIdx).Set(sel)
+	var want []reflect.Value
+	for i, it := range items {
+		if i != x {
+			want = append(want, it)
+		}
+	}
+	c.Count("delete-sel-on-non-covering-selector-type:"+form, 1)
+	if _, err := lw.remote.UpdateData(true, li.Fn, li.MkList(nil), nil, fd); err != nil {
+		c.Violate("delete-sel/"+form+"/error", "%s: %s", li.Fn, err.String())
+		return
+	}
+	if got := rig.CloneItems(li.Items(lw.remote.DataCopy(li.Fn))); rig.Multiset(got) != rig.Multiset(want) {
+		c.Violate("delete-sel/"+form+"/content-differs", "%s: the list holds identifiers 0..%d; a delete whose selector %s names the complete identifier of item %d must remove exactly that item\n store: %s\n fold:  %s",
+			li.Fn, c02Dom-1, rig.JS(sel.Interface()), x, renderItems(got), renderItems(want))
+		c.Witness(map[string]any{"function": li.Fn, "selector": rig.JS(sel.Interface()), "store": renderItems(got), "fold": renderItems(want)})
+	}
+}
+
+// c02WidenElems lets a delete filter with elements name one to three non-identifier fields.
+func c02WidenElems(c *rig.Ctx, li *rig.ListInfo, u *rig.Update) {
+	if u.Kind != "delete-elem" && u.Kind != "delete-sel-elem" {
+		return
+	}
+	extra := c.Rand.Intn(3)
+	for _, i := range c.Rand.Perm(len(li.NonKeyPtr)) {
+		if extra == 0 {
+			break
+		}
+		f := li.NonKeyPtr[i]
+		dup := false
+		for _, e := range u.DelElem {
+			if e == f {
+				dup = true
+			}
+		}
+		if dup {
+			continue
+		}
+		try := *u
+		try.DelElem = append(append([]int(nil), u.DelElem...), f)
+		if _, _, ok := li.Filters(try); ok {
+			u.DelElem = try.DelElem
+			extra--
+		}
+	}
+	c.Count(fmt.Sprintf("delete-elements:fields-named=%d", len(u.DelElem)), 1)
 }
 
 type c02Store struct {
@@ -206,7 +616,20 @@ func c02Case(c *rig.Ctx) {
 	lists := rig.DiscoverLists()
 	li := &lists[c.Index%len(lists)]
 	r := c.Rand
-	lw, err := newListWorld(c.Tag(), li, li.FeatureType, false)
+	c02CheckPinned(c, li, c.Index%len(lists) == 0)
+	// the data features are Generic ones (they hold every function) in even rounds and of the function's own feature
+	// type in odd rounds (the per-type function tables are separate code)
+	T := li.FeatureType
+	if (c.Index/len(lists))%2 == 1 && li.FeatureType != model.FeatureTypeTypeNodeManagement {
+		T = c02PinnedFeatureType[li.Fn]
+		if T == "" {
+			T = featureTypeOf(li.Fn)
+		}
+		if got := featureTypeOf(li.Fn); got != T {
+			c.Violate("identity/list-functions-differ-from-pinned", "%s is pinned as a function of feature type %s; the function tables yield %s", li.Fn, T, got)
+		}
+	}
+	lw, err := newListWorld(c.Tag(), li, T, false)
 	if err != nil {
 		c.Violate("harness-world", "%v", err)
 		return
@@ -216,6 +639,8 @@ func c02Case(c *rig.Ctx) {
 		c.Violate("harness-world", "%v", err)
 		return
 	}
+	c.Seen("world_feature_types", string(T))
+	sentinel := c02SetupSentinel(c, lw)
 
 	histories := c.Pick(60, 150)
 	var shapeSeq strings.Builder
@@ -238,6 +663,7 @@ func c02Case(c *rig.Ctx) {
 		paths[st.path]++
 		var ref []reflect.Value
 		var hist []string
+		sentinelStart := sentinel.print(lw)
 		start := r.Intn(5)
 		if start > 2 {
 			start = 2
@@ -257,6 +683,10 @@ func c02Case(c *rig.Ctx) {
 			st.set(li.MkList(rig.CloneItems(u.Items)))
 			ref = rig.CloneItems(u.Items)
 			hist = append(hist, "start: "+u.String())
+		}
+		if now := sentinel.print(lw); now != sentinelStart {
+			c.Violate("start/other-function-changed", "%s %s: %s changed the data of another function (%s)\n before:\n%s\n after:\n%s", li.Fn, st.path, hist[0], sentinel.fn.Fn, sentinelStart, now)
+			sentinel = c02Sentinel{}
 		}
 		if got := st.read(); rig.Multiset(got) != rig.Multiset(ref) {
 			c.Violate("start/content-differs", "%s %s: after %s the store holds %s", li.Fn, st.path, hist[0], renderItems(got))
@@ -278,6 +708,7 @@ func c02Case(c *rig.Ctx) {
 					c.Count(fmt.Sprintf("delete-sel-multi:items-matched=%d", min(matched, 3)), 1)
 				}
 			}
+			c02WidenElems(c, li, &u)
 			variant := r.Intn(4)
 			if c02MaybeShuffle(c, &u) {
 				c.Count("full-updates-with-unordered-identifiers", 1)
@@ -286,25 +717,52 @@ func c02Case(c *rig.Ctx) {
 			c.Count("updates:"+st.path+":"+u.Kind, 1)
 			before := rig.Multiset(ref)
 
-			// the value a non-persisting partial or delete update returns is the fold as well (the store is
-			// C11's subject; a non-persisting filter-less update is a merge by design and not judged)
-			if st.path == "remote-api" && variant == 3 && u.Kind != "full" {
-				fp, fd, _ := li.Filters(u)
-				ret, e := st.remote.UpdateData(false, li.Fn, li.MkList(rig.CloneItems(u.Items)), fp, fd)
-				if e != nil {
-					c.Violate(u.Kind+"/nonpersist-error", "%s: UpdateData(persist=false) failed: %s\n update: %s\n history: %s", li.Fn, e.String(), u, strings.Join(hist, "\n   "))
-				} else if items, ok := itemsOfResult(li, ret); ok {
+			// the value a non-persisting partial or delete update returns is the fold as well, and the store does not
+			// move (a non-persisting filter-less update is a merge by design and not judged). The probe is the update
+			// that follows or a DIFFERENT one (an update that is applied for real right afterwards would hide a probe
+			// that wrote through).
+			if st.path == "remote-api" && variant == 3 {
+				up := u
+				if r.Intn(2) == 0 {
+					for try := 0; try < 6; try++ {
+						if x, ok := genUpdate(c, li, c02Dom); ok && x.Kind != "full" {
+							up = x
+							c02WidenElems(c, li, &up)
+							break
+						}
+					}
+				}
+				if up.Kind != "full" {
+					fp, fd, _ := li.Filters(up)
+					ret, e := st.remote.UpdateData(false, li.Fn, li.MkList(rig.CloneItems(up.Items)), fp, fd)
+					c.Count("nonpersisting-probes", 1)
+					if e != nil {
+						c.Violate(up.Kind+"/nonpersist-error", "%s: UpdateData(persist=false) failed: %s\n update: %s\n history: %s", li.Fn, e.String(), up, strings.Join(hist, "\n   "))
+					} else if items, ok := itemsOfResult(li, ret); ok {
+						comparisons++
+						if want := li.RefApply(ref, up); rig.Multiset(items) != rig.Multiset(want) {
+							c.Violate(up.Kind+"/nonpersist-result-differs", "%s: UpdateData(persist=false) returned %s\n fold: %s\n update: %s\n history: %s", li.Fn, renderItems(items), renderItems(want), up, strings.Join(hist, "\n   "))
+						}
+					}
 					comparisons++
-					if want := li.RefApply(ref, u); rig.Multiset(items) != rig.Multiset(want) {
-						c.Violate(u.Kind+"/nonpersist-result-differs", "%s: UpdateData(persist=false) returned %s\n fold: %s\n update: %s\n history: %s", li.Fn, renderItems(items), renderItems(want), u, strings.Join(hist, "\n   "))
+					if got := st.read(); rig.Multiset(got) != before {
+						c.Violate(up.Kind+"/nonpersist-changed-store", "%s: UpdateData(persist=false) changed the stored data\n update: %s\n store before: %s\n store after:  %s\n history: %s", li.Fn, up, renderItems(ref), renderItems(got), strings.Join(hist, "\n   "))
+						c.Witness(map[string]any{"function": li.Fn, "history": hist, "nonpersisting_update": up.String(), "store": renderItems(got), "fold": renderItems(ref)})
+						ref = got
+						before = rig.Multiset(ref)
 					}
 				}
 			}
 
 			othersBefore := st.others()
+			sentinelBefore := sentinel.print(lw)
 			orderedBefore := orderedByNumericId(li, ref)
 			ur, errText, ret := st.apply(c, u, variant)
 			hist = append(hist, st.path+" "+ur.String())
+			if now := sentinel.print(lw); now != sentinelBefore {
+				c.Violate(u.Kind+"/other-function-changed", "%s via %s (peer %s): an update of this function changed the data of ANOTHER function (%s) of a feature\n update: %s\n before:\n%s\n after:\n%s", li.Fn, st.path, st.peer.Addr, sentinel.fn.Fn, ur, sentinelBefore, now)
+				sentinel = c02Sentinel{} // reported once
+			}
 			if now := st.others(); now != othersBefore {
 				c.Violate(u.Kind+"/other-store-changed", "%s via %s (peer %s): an update of one store changed the same function's data of another feature (the local one, or the identically numbered feature of the other peer)\n update: %s\n before:\n%s\n after:\n%s", li.Fn, st.path, st.peer.Addr, ur, othersBefore, now)
 			}
@@ -364,6 +822,10 @@ func c02Case(c *rig.Ctx) {
 		if len(sample) == 0 && h == 1 {
 			sample = append(hist, "final: "+renderItems(st.read()))
 		}
+	}
+	if !c.Failed() {
+		c02NonCoveringProbe(c, lw)
+		comparisons++
 	}
 	c.Events(int64(comparisons))
 	c.Count("comparisons", int64(comparisons))
